@@ -92,7 +92,7 @@ def table_roundtrip_q(nrows: int, n1: int, n2: int, ncols: int, c0: int, u: bool
 def table_roundtrip(nrows: int, n0: int, n1: int, n2: int, ncols: int, c0: int, c1: int, c2: int, u: bool, split: bool) -> bool:
     """
     pre: 0 <= nrows <= 3 and 0 <= n0 <= 6 and 0 <= n1 <= 6 and 0 <= n2 <= 6 and 1 <= ncols <= 2
-    pre: 0 <= c0 <= 15 and c1 in (1, 6, 11) and c2 in (0, 13)
+    pre: 0 <= c0 <= 15 and c1 in (1, 6, 11) and c2 in (0, 13) and (nrows <= 2 or c0 % 2 == 0)
     pre: (nrows >= 1 or n0 == 0) and (nrows >= 2 or n1 == 0) and (nrows >= 3 or n2 == 0) and (nrows >= 1 or (c0 == 0 and c1 == 1 and c2 == 0))
     pre: nrows <= 2 or (c1 == 6 and c2 == 13)
     pre: PART < 0 or nrows * 4 + (2 if u else 0) + (1 if split else 0) == PART
@@ -164,7 +164,7 @@ def _dfsr(mask, vsel, nch, c0, split):
 
 def dfsr_roundtrip(mask: int, vsel: int, nch: int, c0: int, split: bool) -> bool:
     """
-    pre: 0 <= mask < 8192 and 0 <= vsel <= 2 and 1 <= nch <= 3 and c0 in (0, 3, 5)
+    pre: 0 <= mask < 8192 and 0 <= vsel <= 1 and nch in (1, 3) and c0 in (0, 3, 5)
     pre: PART < 0 or (mask // 512) == PART
     post: _
     """
